@@ -130,6 +130,19 @@ func runOne(spec RunSpec) *RunResult {
 			fmt.Fprintf(&sb, "\n    %s [%s] %s", l.Key, l.State, l.Why)
 		}
 		res.Violations = append(res.Violations, Violation{Prop: "C03", Rule: "deadlock", Detail: "workload did not finish: nothing runnable and no timer pending" + sb.String()})
+		// a call that was begun and never handed control back (C05), whatever else is stuck
+		for _, c := range w.Calls {
+			if c.BeginEv != 0 && !c.Done {
+				res.Violations = append(res.Violations, Violation{Prop: "C05", Rule: "call-never-returned",
+					Detail: fmt.Sprintf("call %s (%s, timeout %v) never returned: the run ended with nothing runnable and no timer pending%s", c.Spec.Tag, c.Spec.Via, c.Spec.Timeout, sb.String())})
+				break
+			}
+		}
+		// and no property can hold in a wedged process: whichever one this run was exploring
+		if spec.Prop != "" && spec.Prop != "C03" && spec.Prop != "C05" {
+			res.Violations = append(res.Violations, Violation{Prop: spec.Prop, Rule: "library-deadlock",
+				Detail: "the run wedged (nothing runnable, no timer pending) while exploring the workload of " + spec.Prop + sb.String()})
+		}
 	}
 	h := uint64(1469598103934665603)
 	for _, e := range w.Hist {
